@@ -17,8 +17,11 @@ theorem callDefsIn_nil (c : Cfg) (mods : Ids) (inDef useCD : Bool) (cal : Ids) (
   | .block _ _ _ _ _ _ _, h => by simp [callDefNames] at h
   | .call _ _ _ _ b r, h => by
       simp only [callDefNames, List.append_eq_nil_iff] at h
-      simp [callDefsIn, callDefsIn_nil c mods inDef useCD cal ccD rest path b h.1,
-        callDefsIn_nil c mods inDef useCD cal ccD rest path r h.2]
+      by_cases hf : Generated.Names.callDefsDescendCalls = true
+      · simp only [hf, if_true] at h
+        simp [callDefsIn, hf, callDefsIn_nil c mods inDef useCD cal ccD rest path b h.1,
+          callDefsIn_nil c mods inDef useCD cal ccD rest path r h.2]
+      · simp [callDefsIn, hf, callDefsIn_nil c mods inDef useCD cal ccD rest path r h.2]
 
 /-- start state of a `<%def>`'s own `_Identifiers` -/
 theorem defStart_und (i : Ids) (u a : List Name) : ∀ x ∈ ((i.addUndecl u).addArgs a).undeclared, i.undeclared = [] →
@@ -452,7 +455,10 @@ theorem callDefsIn_ok {c : Cfg} {T : List Name} {mods : Ids} (hm : ModsOK c T mo
       intro s hs
       simp only [callDefsIn, List.mem_append] at hs
       rcases hs with hs | hs
-      · exact callDefsIn_ok hm b inDef useCD cal ccD rest path hch hgb hA hB hT s hs
+      · by_cases hf : Generated.Names.callDefsDescendCalls = true
+        · simp only [hf, if_true] at hs
+          exact callDefsIn_ok hm b inDef useCD cal ccD rest path hch hgb hA hB hT s hs
+        · simp [hf] at hs
       · exact callDefsIn_ok hm r inDef useCD cal ccD rest path hch hgr hA hB hT s hs
 end
 
